@@ -233,6 +233,67 @@ def run(eng, rep, tier):
               "the counting tables are filled from the head and from every symbol of the body of each production",
               "the counting tables are not filled from %s" % ("production heads" if not uses_head else "the symbols of the bodies"),
               ss, site=site(setup))
+    # each symbol enters the worklist once: the counters are decremented once per registered occurrence each time a
+    # symbol is popped, so a symbol pushed twice (a terminal that is already known - `Terminal("epsilon")` equals the
+    # Epsilon seed) counts a body down twice and marks a head whose other symbols derive nothing (F40)
+    sc = interp.run_entry(core, CFG, args=[_AV(types=frozenset({"bool"}), const=False)])
+    cevs = own(sc)
+    cnodes = code_nodes(prog, core)
+    popped = frozenset(l for ev in cevs if ev.kind == "bcall" and (ev.callee or "") in ("pop", "popleft") and ev.recv is not None
+                       for l in _aliases(ev.recv))
+    pushes = [ev for ev in cevs if ev.kind == "write" and ev.wkind in ("mutate:append", "mutate:extend", "mutate:appendleft")
+              and ev.recv is not None and (_aliases(ev.recv) & popped)]
+
+    def _guarded(ev):
+        for e, pol in resolved_facts(cnodes, ev.facts):
+            for c in ast.walk(e):
+                if isinstance(c, ast.Compare) and len(c.ops) == 1 and (
+                        (isinstance(c.ops[0], ast.NotIn) and (pol or c is not e)) or (isinstance(c.ops[0], ast.In) and (not pol or c is not e))):
+                    return True
+        return False
+
+    def _filtered_expr(x, depth=0):
+        """True: the expression keeps only members not yet known; False: it takes a collection as it is; None: unknown"""
+        if isinstance(x, (ast.ListComp, ast.SetComp, ast.GeneratorExp)):
+            return any(isinstance(c, ast.Compare) and isinstance(c.ops[0], (ast.NotIn, ast.In)) for g in x.generators
+                       for i_ in g.ifs for c in ast.walk(i_)) or None
+        if isinstance(x, ast.BinOp) and isinstance(x.op, ast.Sub):
+            return True
+        if isinstance(x, ast.Call) and isinstance(x.func, ast.Attribute) and x.func.attr == "difference":
+            return True
+        if isinstance(x, ast.Call) and isinstance(x.func, ast.Name) and x.func.id in ("list", "set", "sorted", "tuple") and len(x.args) == 1:
+            return _filtered_expr(x.args[0], depth + 1)
+        if isinstance(x, ast.Attribute):
+            return False
+        if isinstance(x, ast.Name) and depth < 3:
+            ds = [st.value for fn_ in cnodes for st in ast.walk(fn_) if isinstance(st, ast.Assign) and len(st.targets) == 1
+                  and isinstance(st.targets[0], ast.Name) and st.targets[0].id == x.id]
+            if len(ds) == 1:
+                return _filtered_expr(ds[0], depth + 1)
+        return None
+    if not popped or not pushes:
+        rep.error("R10a", "C12.2", core.qname, "each-symbol-pushed-once", "cannot see the worklist of the counting fixpoint "
+                  "(what is popped, what is pushed); the rule cannot follow it", site=site(core))
+    else:
+        bad, unknown = [], []
+        for ev in pushes:
+            if ev.wkind == "mutate:extend":
+                arg = ev.node.args[0] if isinstance(ev.node, ast.Call) and ev.node.args else None
+                v = _guarded(ev) or (_filtered_expr(arg) if arg is not None else None)
+                (bad if v is False else unknown if v is None else []).append(ev)
+            elif not _guarded(ev):
+                bad.append(ev)
+        if bad:
+            rep.violation("R10a", "C12.2", core.qname, "each-symbol-pushed-once",
+                          "a symbol is pushed on the worklist of the counting fixpoint without a `not already known` test: a "
+                          "symbol that is already there (Terminal('epsilon') equals the Epsilon seed) is popped twice and counts "
+                          "every body it occurs in down twice", site=bad[0].site.to_json())
+        elif unknown:
+            rep.error("R10a", "C12.2", core.qname, "each-symbol-pushed-once", "a collection is pushed on the worklist as a whole "
+                      "and the rule cannot see whether known symbols were filtered out of it", site=unknown[0].site.to_json())
+        else:
+            rep.holds("R10a", "C12.2", core.qname, "each-symbol-pushed-once",
+                      "every push on the worklist (%d) sits under a `not already known` test" % len(pushes), site=site(core))
     ob.worklist("C12.2", core, "fixpoint-is-a-closure-worklist", "the counting fixpoint is a visited-set worklist",
                 "_get_generating_or_nullable is not a closure worklist")
 
@@ -445,8 +506,22 @@ def run(eng, rep, tier):
         # the value of `a + b` on lists lives at the fresh location named after the BinOp node
         concat_pts = {":%d:%d" % (ev.node.lineno, ev.node.col_offset) for ev in evs if ev.kind == "concat"
                       and any(a is not None and a.types and "list" in a.types for a in ev.args)}
+        # ... and a copy of it (`list(word)`, `word.copy()`, `word[:]`) is still that word
+        copies = []          # (position of the copying call, aliases of what it copies)
+        for e2 in evs:
+            if e2.kind == "bcall" and (e2.callee or "") in ("list", "tuple", "copy", "sorted", "deepcopy") and hasattr(e2.node, "lineno"):
+                src = frozenset().union(*[_aliases(a) for a in list(e2.args) + ([e2.recv] if e2.recv is not None else [])])
+                copies.append((":%d:%d" % (e2.node.lineno, e2.node.col_offset), src))
+
+        def sources(av):
+            out = set(_aliases(av))
+            for _ in range(3):
+                for pt, src in copies:
+                    if any(l[0].startswith("fresh:") and re.search(re.escape(pt) + r"(\D|$)", l[0]) for l in out):
+                        out |= src
+            return out
         longer = [ev for ev in others if any(l[0].startswith("fresh:") and any(
-            re.search(re.escape(pt) + r"(\D|$)", l[0]) for pt in concat_pts) for l in _aliases(ev.value))]
+            re.search(re.escape(pt) + r"(\D|$)", l[0]) for pt in concat_pts) for l in sources(ev.value))]
         if not longer:
             rep.error("R1", "C12.5", fw.qname, "concatenated-words-duplicate-guarded",
                       "no yielded word is the concatenation of two shorter ones; the rule cannot follow this enumeration",
